@@ -99,6 +99,9 @@ func Gen(o GenOpts) *rapid.Generator[Log] {
 			e := Entry{Kind: rapid.SampledFrom(kinds).Draw(t, "kind")}
 			if e.Kind < KBatchInsert {
 				e.Item = item.Draw(t, "item")
+			} else if rapid.IntRange(0, 11).Draw(t, "bigbatch") == 0 {
+				// now and then a batch of 16-40 items: far more items than ids, so the same id occurs several times, far apart
+				e.Items = rapid.SliceOfN(item, 16, 40).Draw(t, "bigitems")
 			} else {
 				e.Items = rapid.SliceOfN(item, 0, o.MaxBatch).Draw(t, "items")
 			}
